@@ -751,11 +751,14 @@ Error RACFGBuilder::on_invoke(InvokeNode* invoke_node, RAInstBuilder& ib) noexce
         ASMJIT_PROPAGATE(_pass.virt_index_as_work_reg(&work_reg, Operand::virt_id_to_index(reg.id())));
 
         if (arg.is_indirect()) {
-          RegGroup reg_group = work_reg->group();
-          if (reg_group != RegGroup::kGp) {
-            return make_error(Error::kInvalidState);
+          // The pointer of an indirect stack argument has already been stored by on_before_invoke().
+          if (arg.is_reg()) {
+            RegGroup reg_group = work_reg->group();
+            if (reg_group != RegGroup::kGp) {
+              return make_error(Error::kInvalidState);
+            }
+            ASMJIT_PROPAGATE(ib.add_call_arg(work_reg, arg.reg_id()));
           }
-          ASMJIT_PROPAGATE(ib.add_call_arg(work_reg, arg.reg_id()));
         }
         else if (arg.is_reg()) {
           RegGroup reg_group = work_reg->group();
@@ -821,7 +824,7 @@ static inline OperandSignature vec_reg_signature_by_size(uint32_t size) noexcept
 
 Error RACFGBuilder::move_vec_to_ptr(InvokeNode* invoke_node, const FuncValue& arg, const Vec& src, Out<Reg> out) noexcept {
   Support::maybe_unused(invoke_node);
-  ASMJIT_ASSERT(arg.is_reg());
+  ASMJIT_ASSERT(arg.is_reg() || arg.is_stack());
 
   uint32_t arg_size = TypeUtils::size_of(arg.type_id());
   if (arg_size == 0) {
@@ -978,6 +981,11 @@ Error RACFGBuilder::move_reg_to_stack_arg(InvokeNode* invoke_node, const FuncVal
 
   TypeId dst_type_id = arg.type_id();
   TypeId src_type_id = vr->type_id();
+
+  // An indirect argument travels as a pointer to the value - the slot receives the address held by `reg`.
+  if (arg.is_indirect()) {
+    dst_type_id = register_size == 8 ? TypeId::kUInt64 : TypeId::kUInt32;
+  }
 
   switch (dst_type_id) {
     case TypeId::kInt64:
